@@ -150,6 +150,10 @@ pub fn c15(tier: &str, seed: u64, meta: &str) -> Report {
     let all_words = &all_words;
     let reph_ya: Vec<&String> = fp.words.iter().filter(|w| w.contains("র্য")).collect();
     let reph_ya = &reph_ya;
+    // words with an independent vowel right behind a consonant within the first six letters
+    let is_iv = |c: char| "আইঈউঊঋএঐওঔ".contains(c);
+    let merge_words: Vec<(&String, usize)> = fp.words.iter().filter_map(|w| { let cs: Vec<char> = w.chars().collect(); (1..cs.len().min(6)).find(|&n| is_iv(cs[n]) && ('ক'..='হ').contains(&cs[n - 1])).map(|n| (w, n)) }).collect();
+    let merge_words = &merge_words;
     let mut rep = par_items(total, |_| (Worker2::new(fpr.p.data.clone()), HashMap::<u32, Session>::new()), |st, i, rep| {
         let (w, sessions) = st;
         let mut rng = Rng::new(seed ^ i.wrapping_mul(0xC15));
@@ -161,9 +165,11 @@ pub fn c15(tier: &str, seed: u64, meta: &str) -> Report {
         let s = sessions.get_mut(&bits).unwrap();
         if s.history.len() > 3000 { s.history.clear(); }
         let with_zwj = i % 25 == 7 && !reph_ya.is_empty();
-        let base = if with_zwj { (*rng.pick(reph_ya)).clone() } else { fpr.words[(rng.next() % fpr.words.len() as u64) as usize].clone() };
+        let with_merge = i % 25 == 13 && !merge_words.is_empty();
+        let (mw, mn) = if with_merge { let x = rng.pick(merge_words); (x.0.clone(), x.1) } else { (String::new(), 0) };
+        let base = if with_zwj { (*rng.pick(reph_ya)).clone() } else if with_merge { mw } else { fpr.words[(rng.next() % fpr.words.len() as u64) as usize].clone() };
         let n = base.chars().count();
-        let take = if with_zwj { (base.chars().collect::<Vec<_>>().windows(3).position(|x| x == ['র', '্', 'য']).unwrap_or(0) + 3 + rng.below(2)).min(n) } else { 1 + rng.below(n.min(6)) };
+        let take = if with_merge { (mn + 1 + rng.below(2)).min(n) } else if with_zwj { (base.chars().collect::<Vec<_>>().windows(3).position(|x| x == ['র', '্', 'য']).unwrap_or(0) + 3 + rng.below(2)).min(n) } else { 1 + rng.below(n.min(6)) };
         let mut prefix: String = base.chars().take(take).collect();
         if with_zwj { prefix = prefix.replacen("র্য", "র\u{200D}্য", 1); }
         // explicit joiners in the typed word: a zero-width joiner is significant (Ra + ZWJ + Zo-fola is not Reph + Ya),
@@ -174,7 +180,18 @@ pub fn c15(tier: &str, seed: u64, meta: &str) -> Report {
         }
         let lead = *rng.pick(&["", "", "", "(", "\"", "'"][..]);
         let trail = *rng.pick(&["", "", "", "!!", ")", "\".", "'", "?!", ",", ";;"][..]);
-        let typed_text = format!("{}{}{}", lead, prefix, trail);
+        // an independent vowel behind a consonant may also be typed as hasanta + vowel sign (the two merge into the
+        // vowel: the composition changes although its length does not)
+        let spelled: String = if with_merge || rng.chance(1, 5) {
+            let cs: Vec<char> = prefix.chars().collect();
+            let mut o = String::new();
+            for (n, c) in cs.iter().enumerate() {
+                let kar = match c { 'আ' => Some('া'), 'ই' => Some('ি'), 'ঈ' => Some('ী'), 'উ' => Some('ু'), 'ঊ' => Some('ূ'), 'ঋ' => Some('ৃ'), 'এ' => Some('ে'), 'ঐ' => Some('ৈ'), 'ও' => Some('ো'), 'ঔ' => Some('ৌ'), _ => None };
+                match kar { Some(k) if n > 0 && ('ক'..='হ').contains(&cs[n - 1]) => { o.push('্'); o.push(k); } _ => o.push(*c) }
+            }
+            o
+        } else { prefix.clone() };
+        let typed_text = format!("{}{}{}", lead, spelled, trail);
         let mut evs = match fpr.keys_for(&typed_text) { Some(k) => k, None => return };
         let used_backspace = rng.chance(1, 8);
         if used_backspace { evs.push(SEv::Back(false)); }
@@ -216,7 +233,7 @@ pub fn c15(tier: &str, seed: u64, meta: &str) -> Report {
         if list.len() > 2 { rep.nontrivial_key(&format!("{} {}", bits, aux)); }
         if rep.samples.len() < 2 && i % 997 == 3 { rep.sample(json!({"typed": typed_text, "composed_text": aux, "option_bits": bits, "candidates": list})); }
     });
-    rep.extra.insert("rule".into(), json!("prefixes (1-6 letters) of random dictionary words typed through Probhat, an eighth of them with an explicit zero-width joiner / non-joiner typed inside (Ra + ZWJ + Zo-fola where the word has Reph + Ya), bare or wrapped in quotes / brackets / repeated marks, sometimes followed by a backspace, under the 16 settings of traditional joining, smart quotes, English, ANSI; every list judged against dictionary.json read independently (membership, prefix, edit distance order, at most nine, no repeats, English last); also compared with the extracted model; non-trivial = more than two candidates"));
+    rep.extra.insert("rule".into(), json!("prefixes (1-6 letters) of random dictionary words typed through Probhat, a fifth with independent vowels behind consonants typed as hasanta + vowel sign, an eighth of them with an explicit zero-width joiner / non-joiner typed inside (Ra + ZWJ + Zo-fola where the word has Reph + Ya), bare or wrapped in quotes / brackets / repeated marks, sometimes followed by a backspace, under the 16 settings of traditional joining, smart quotes, English, ANSI; every list judged against dictionary.json read independently (membership, prefix, edit distance order, at most nine, no repeats, English last); also compared with the extracted model; non-trivial = more than two candidates"));
     rep
 }
 
@@ -257,12 +274,18 @@ pub fn c16(tier: &str, seed: u64, meta: &str) -> Report {
         let self_mapped: Vec<String> = fpr.p.ac_keys.iter().filter(|k| w.oracle.ac(k).map(|v| v == *k).unwrap_or(false)).cloned().collect();
         let smart = i % 4 < 2;
         let (mut s_on_e, mut s_on, mut s_off) = match (mk(w, true, true, i % 8 >= 4, smart), mk(w, true, false, false, smart), mk(w, false, true, false, smart)) { (Some(a), Some(b), Some(c)) => (a, b, c), _ => return };
-        for _ in 0..per {
+        // every emoticon and every auto-correct key that is not plain letters is typed by one of the phonetic sessions
+        let n_ph = (sessions / 2).max(1) as usize;
+        let specials: Vec<String> = if phonetic {
+            fpr.p.emoticons.iter().chain(fpr.p.ac_keys.iter().filter(|k| k.chars().any(|c| !c.is_ascii_alphabetic()))).filter(|t| fpr.p.typeable(t)).enumerate()
+                .filter(|(n, _)| n % n_ph == (i / 2) as usize % n_ph).map(|(_, t)| t.clone()).collect()
+        } else { vec![] };
+        for wn in 0..per.max(specials.len()) {
             let evs: Vec<SEv> = if phonetic {
-                let t = match rng.below(7) { 0 => format!("\"{}\"", rng.pick(&["\\", "`", "k", "ami", "a`"][..])), 1 => rng.pick(&fpr.p.emoticons).clone(), 2 => rng.pick(&fpr.p.emoji_names).clone(),
+                let t = if wn < specials.len() { specials[wn].clone() } else { match rng.below(7) { 0 => format!("\"{}\"", rng.pick(&["\\", "`", "k", "ami", "a`"][..])), 1 => rng.pick(&fpr.p.emoticons).clone(), 2 => rng.pick(&fpr.p.emoji_names).clone(),
                     // bundled auto-correct rows that map a text to itself (emoticon-like texts such as o_o, :D, X3)
                     3 if !self_mapped.is_empty() => rng.pick(&self_mapped).clone(),
-                    _ => word_pool(&fpr.p, &mut rng, 1).pop().unwrap_or_else(|| "ami".into()) };
+                    _ => word_pool(&fpr.p, &mut rng, 1).pop().unwrap_or_else(|| "ami".into()) } };
                 if !fpr.p.typeable(&t) { continue; }
                 fpr.p.key_events(&t, 0)
             } else {
@@ -313,7 +336,7 @@ pub fn c16(tier: &str, seed: u64, meta: &str) -> Report {
             }
         }
     });
-    rep.extra.insert("rule".into(), json!("three contexts fed the same events in both methods: ANSI+English on (the two setters called in either order), ANSI on with English off, ANSI off; phonetic: word pool, emoticons, emoji names, self-mapping auto-correct rows, quoted non-letters; fixed: prefixes of dictionary words and Bengali emoji names through Probhat with quotes; every candidate's pre-edit text is compared with poriborton called directly; thorough adds the encoder over all dictionary words; non-trivial = the ANSI-off list is longer than the ANSI list (something was withheld)"));
+    rep.extra.insert("rule".into(), json!("three contexts fed the same events in both methods: ANSI+English on (the two setters called in either order), ANSI on with English off, ANSI off; phonetic: ALL emoticons and ALL auto-correct keys that are not plain letters (spread over the sessions), word pool, emoji names, self-mapping auto-correct rows, quoted non-letters; fixed: prefixes of dictionary words and Bengali emoji names through Probhat with quotes; every candidate's pre-edit text is compared with poriborton called directly; thorough adds the encoder over all dictionary words; non-trivial = the ANSI-off list is longer than the ANSI list (something was withheld)"));
     rep
 }
 
@@ -337,13 +360,17 @@ pub fn c17(tier: &str, seed: u64, meta: &str) -> Report {
         };
         let (mut s_on, mut s_off) = match (mk(w, true), mk(w, false)) { (Some(a), Some(b)) => (a, b), _ => return };
         let q: Vec<&str> = vec!["'", "\"", "(", ".", ",", ":", "`", ")", "'\"", "\"'", "", "", ""];
+        let self_typed: Vec<String> = fpr.km.keys.iter().filter(|(k, m, v)| *m == 0 && key_char(*k).map(|c| c.to_string()) == Some(v.clone()) && !"'\"".contains(v.as_str())).map(|(_, _, v)| v.clone()).collect();
         for n in 0..per {
             let (lead, trail) = (format!("{}{}", rng.pick(&q[..]), if rng.chance(1, 4) { *rng.pick(&q[..]) } else { "" }), format!("{}{}", rng.pick(&q[..]), if rng.chance(1, 4) { *rng.pick(&q[..]) } else { "" }));
             let core: String = if phonetic {
                 match rng.below(6) { 0 => rng.pick(&fpr.p.emoji_names).clone(), 1 => String::new(), 2 => rng.pick(&["sesh", "ami", "cool", "chup", "smile"][..]).to_string(), 3 => rng.pick(&["\\", "5", "k\\", "$"][..]).to_string(), _ => word_pool(&fpr.p, &mut rng, 1).pop().unwrap_or_default() }
             } else {
+                // now and then characters the layout passes through unchanged (the composed text then equals the raw keys)
+                if rng.chance(1, 8) && !self_typed.is_empty() { (0..1 + rng.below(2)).map(|_| rng.pick(&self_typed).clone()).collect::<Vec<_>>().concat() } else {
                 let base = if rng.chance(1, 5) { rng.pick(&fpr.bn_names).clone() } else { rng.pick(&fpr.words).clone() };
                 base.chars().take(1 + rng.below(base.chars().count().min(5))).collect()
+                }
             };
             let t = format!("{}{}{}", lead, core, trail);
             let evs: Vec<SEv> = if phonetic { if !fpr.p.typeable(&t) || t.is_empty() { continue; } fpr.p.key_events(&t, 0) } else { match fpr.keys_for(&t) { Some(k) if !k.is_empty() => k, _ => continue } };
